@@ -232,6 +232,10 @@ def plan(tier):
     specs = []
     n = 4 if q else 5
     for mode in ("ack", "unack"):
+        if mode == "ack":
+            n = 4  # N=5 acknowledged is ~15x the quick cost; the prefix specs below go deeper instead
+        else:
+            n = 4 if q else 5
         specs.append(Spec(f"dest/{mode}/N={n}", "vf.harness.c15:h_dest", {"N": n, "mode": mode}, twin_share=0.03,
                           obligations=["fd_accepted", "md_accepted"]))
     for lim in (1, 2):
